@@ -68,6 +68,21 @@ def random_ids(rnd, n, style=None):
         ids = rnd.sample(range(10**6, 10**6 + 20 * n + 1), n)
     elif style == 'huge':
         ids = rnd.sample(range(2 * 10**9 - 50 * n - 1, 2 * 10**9), n)
+    elif style == 'pow2':
+        # (only on request, never drawn by default: existing streams are unchanged)  large sparse ids with a binary structure:
+        # "parts" numbered independently with offsets that are multiples of 2^o, so the same local index occurs in several
+        # parts (ids differing by exact multiples of 2^o), and - three times out of four - the largest id is 2^k - 1
+        # (max id + 1 a power of two).  Arithmetic on packed / hashed rows of such ids wraps or collides where it does
+        # not for random ids of the same magnitude.
+        o, k = rnd.choice([(20, 22), (20, 22), (18, 23), (16, 24), (20, 23), (13, 17), (10, 18), (4, 20), (20, 31)])
+        n_slots, cap = 2 ** (k - o), 2 ** o - 2
+        parts = rnd.sample(range(n_slots), min(n_slots, max(rnd.randint(2, 4), -(-n // cap))))
+        n_local = min(cap, -(-n // len(parts)) + rnd.randint(0, 2))
+        base = rnd.choice([1, 1, 2 ** o - 1 - n_local])             # local indices start at 1 or end just below the next part
+        pairs = rnd.sample([(p, j) for p in parts for j in range(n_local)], n)
+        ids = [p * 2 ** o + base + j for p, j in pairs]
+        if rnd.random() < .75:
+            ids[ids.index(max(ids))] = 2 ** k - 1
     else:  # ids that are prefixes / digit permutations of each other
         pool = set()
         while len(pool) < n:
